@@ -5,6 +5,12 @@ import CanvasProofs.Lemmas.C03Split
 import CanvasProofs.Lemmas.C03Loop
 import CanvasProofs.Lemmas.C03Chord
 import CanvasProofs.Lemmas.C03Replace
+import CanvasProofs.Lemmas.C03Whole
+import CanvasProofs.Lemmas.C03StepK
+import CanvasProofs.Lemmas.C03Real
+import CanvasProofs.Lemmas.C03Spec
+import CanvasProofs.Lemmas.C03XMono
+import CanvasProofs.Lemmas.C03Arc
 import Mathlib.Tactic.Ring
 import Mathlib.Tactic.Linarith
 import Mathlib.Tactic.NormNum
@@ -180,6 +186,55 @@ example : (50 : ℚ) * 50 = dd (Pt.mk (0 : ℚ) 0) (Pt.mk 30 40)
   simp only [dd, turnDot, s2nom, Point.Dot, Point.Sub, Point.PerpDot]
   norm_num
 
+/-! ## 3b. the whole `flattenQuadraticBezier` loop -/
+
+/-- WHOLE LOOP, any step rule that respects the two bounds (`StepOK`): the emitted polyline
+`p0, B(T₁), …, B(T_k), p2` has strictly increasing break parameters in (0,1), consecutive edges are
+contiguous pieces of the ORIGINAL curve (`chainOK`: for every edge [a,b] and every parameter x in [a,b]
+the curve point B(x) is within 2·tol of the line through B(a), B(b)), and it has at most `fuel`
+vertices. All control polygons, all tolerances, any number of iterations. -/
+theorem flatten_quad_every_edge_within_two_tol (tol : K) (step : Pt K → Pt K → Pt K → Option K)
+    (hstep : ∀ q0 q1 q2 t, step q0 q1 q2 = some t → 0 < t ∧ t < 1 ∧ StepOK tol q0 q1 q2 t)
+    (hstop : ∀ q0 q1 q2, step q0 q1 q2 = none → StepOK tol q0 q1 q2 1)
+    (fuel : Nat) (p0 p1 p2 : Pt K) (vs : List (Pt K))
+    (h : flattenQuadLoop step quadSplitR fuel p0 p1 p2 = some vs) :
+    ∃ Ts : List K, vs = Ts.map (quadraticBezierPos p0 p1 p2) ++ [p2]
+      ∧ Ts.Pairwise (· < ·) ∧ (∀ T ∈ Ts, 0 < T ∧ T < 1) ∧ chainOK tol p0 p1 p2 0 Ts
+      ∧ vs.length ≤ fuel :=
+  quad_loop_within tol step hstep hstop p0 p1 p2 fuel p0 p1 p2 0 vs (le_refl 0) zero_lt_one rfl
+    (fun s => by congr 1; ring) h
+
+/-- The step rule of path_util.go:724-748 written over K (`quadStepK`: `Env.sqrt`, `Env.hypot`, the
+90° cap, `+Inf` for `s2nom = 0`) satisfies both requirements, for every tolerance > 0 — assuming only
+that sqrt and hypot are a square root and a Euclidean norm (`SqrtOK`) and that `Point.Equals` is
+equality (the Epsilon fuzz is outside the theorem). -/
+theorem code_step_rule_respects_bounds (hs : SqrtOK K) (tol : K) (htol : 0 < tol) (eqp : Pt K → Pt K → Bool)
+    (heq : ∀ a b, eqp a b = true → a = b) (q0 q1 q2 : Pt K) :
+    (∀ t, quadStepK tol eqp q0 q1 q2 = some t → 0 < t ∧ t < 1 ∧ StepOK tol q0 q1 q2 t)
+      ∧ (quadStepK tol eqp q0 q1 q2 = none → StepOK tol q0 q1 q2 1) :=
+  quadStepK_ok hs tol htol eqp heq q0 q1 q2
+
+/-- Hence: `flattenQuadraticBezier` (model loop + the code's step rule) approximates EVERY quadratic
+Bézier within 2·tol, with vertices on the curve in curve order. -/
+theorem flatten_quad_within_two_tol (hs : SqrtOK K) (tol : K) (htol : 0 < tol) (eqp : Pt K → Pt K → Bool)
+    (heq : ∀ a b, eqp a b = true → a = b) (fuel : Nat) (p0 p1 p2 : Pt K) (vs : List (Pt K))
+    (h : flattenQuadLoop (quadStepK tol eqp) quadSplitR fuel p0 p1 p2 = some vs) :
+    ∃ Ts : List K, vs = Ts.map (quadraticBezierPos p0 p1 p2) ++ [p2]
+      ∧ Ts.Pairwise (· < ·) ∧ (∀ T ∈ Ts, 0 < T ∧ T < 1) ∧ chainOK tol p0 p1 p2 0 Ts
+      ∧ vs.length ≤ fuel :=
+  flatten_quad_every_edge_within_two_tol tol (quadStepK tol eqp)
+    (fun q0 q1 q2 t ht => (quadStepK_ok hs tol htol eqp heq q0 q1 q2).1 t ht)
+    (fun q0 q1 q2 hn => (quadStepK_ok hs tol htol eqp heq q0 q1 q2).2 hn) fuel p0 p1 p2 vs h
+
+/-- non-vacuity: the assumptions on sqrt/hypot hold for the real numbers -/
+example : @SqrtOK ℝ _ _ _ envReal := sqrtOK_real
+
+/-- non-vacuity of `StepOK` with a genuine step: hairpin (0,0),(30,40),(1,0), tol = 1, t = cap -/
+example : StepOK (1 : ℚ) (Pt.mk 0 0) (Pt.mk 30 40) (Pt.mk 1 0) (2500 / 4970) :=
+  ⟨50, by simp only [dd, Point.Dot, Point.Sub]; norm_num,
+    by simp only [s2nom, Point.Sub, Point.PerpDot]; norm_num,
+    by simp only [dd, turnDot, Point.Dot, Point.Sub]; norm_num⟩
+
 /-! ## 4. the `replace` driver keeps the subpath structure -/
 
 /-- `Flatten` on the command-list model, for ANY callbacks: the result consists of MoveTo / LineTo /
@@ -215,6 +270,29 @@ example : subpathCount (replaceCmds (fun _ _ => true) (fun a b => decide (a = b)
       [Cmd.M (Pt.mk 0 0), Cmd.Curve () (Pt.mk 2 0), Cmd.L (Pt.mk 3 0)]) = 2 := by
   decide
 
+/-! ## 4b. the executable verdict `coveredBy` (judges the real code's output on `!` lines) is sound -/
+
+/-- verdict ok ⇒ every sample of the curve has a point of some polyline edge within the radius -/
+theorem verdict_sound (r2 : K) (samples poly : List (Pt K)) (h : coveredBy r2 samples poly = true) :
+    ∀ s ∈ samples, ∃ e ∈ edges poly, ∃ t : K, 0 ≤ t ∧ t ≤ 1 ∧ distSqAt s e.1 e.2 t ≤ r2 :=
+  coveredBy_sound r2 samples poly h
+
+/-- a pass at tolerance r stays a pass at any larger tolerance -/
+theorem verdict_monotone (r2 r2' : K) (hr : r2 ≤ r2') (samples poly : List (Pt K))
+    (h : coveredBy r2 samples poly = true) : coveredBy r2' samples poly = true :=
+  coveredBy_mono r2 r2' hr samples poly h
+
+/-- the distance the verdict is built from does not depend on where the drawing is placed -/
+theorem verdict_distance_translation_invariant (p a b v : Pt K) :
+    distSqPointSeg ⟨p.x + v.x, p.y + v.y⟩ ⟨a.x + v.x, a.y + v.y⟩ ⟨b.x + v.x, b.y + v.y⟩ = distSqPointSeg p a b :=
+  distSqPointSeg_translate p a b v
+
+/-- non-vacuity: the chord (0,0)→(2,0) covers the sample (1,1) of `M0 0Q1 2 2 0` within r² = 1 but not 1/2 -/
+example : coveredBy (1 : ℚ) [Pt.mk 1 1] [Pt.mk 0 0, Pt.mk 2 0] = true
+    ∧ coveredBy (1 / 2 : ℚ) [Pt.mk 1 1] [Pt.mk 0 0, Pt.mk 2 0] = false := by
+  constructor <;>
+    simp [coveredBy, nearPolyline, edges, distSqPointSeg, footParam, distSqAt] <;> norm_num
+
 /-! ## 5. x-monotone splitting is exact -/
 
 /-- `xmonotoneQuadraticBezier` splits at t = (p0.x − p1.x)/(p0.x − 2p1.x + p2.x): that is the root of
@@ -237,5 +315,40 @@ theorem xmonotone_quad_piece_monotone (p0 p1 p2 : Pt K) (s : K) (h0 : 0 ≤ s) (
         + s * ((-2 + 2 * 1) * p0.x + (2 - 4 * 1) * p1.x + 2 * 1 * p2.x) := by ring
   rw [e]
   exact add_nonneg (mul_nonneg (by linarith) ha) (mul_nonneg h0 hb)
+
+/-- `xmonotoneQuadraticBezier` over K (`xmonoQuadK`): the result is the curve itself or its two
+de Casteljau halves at a parameter t in (0,1) where the x-derivative vanishes — by `split_exact_quad_*`
+the pieces trace exactly the original curve in order. -/
+theorem xmonotone_quad_pieces_exact (p0 p1 p2 : Pt K) :
+    xmonoQuadK p0 p1 p2 = [(p0, p1, p2)] ∨
+      ∃ t : K, 0 < t ∧ t < 1 ∧ xmonoQuadK p0 p1 p2 = [quadL p0 p1 p2 t, quadR p0 p1 p2 t]
+        ∧ (quadraticBezierDeriv p0 p1 p2 t).x = 0 :=
+  xmonoQuadK_exact p0 p1 p2
+
+/-- … and EVERY piece it returns is x-monotone: the x-derivative of the piece has the same sign at any
+two parameters of [0,1] (all control polygons). -/
+theorem xmonotone_quad_pieces_monotone (p0 p1 p2 : Pt K) : ∀ q ∈ xmonoQuadK p0 p1 p2, XMonotone q :=
+  xmonoQuadK_monotone p0 p1 p2
+
+/-- non-vacuity: `M0 0Q2 1 1 2` is split at t = 2/3 -/
+example : ∃ t : ℚ, xmonoQuadK (Pt.mk (0 : ℚ) 0) (Pt.mk 2 1) (Pt.mk 1 2) = [quadL (Pt.mk 0 0) (Pt.mk 2 1) (Pt.mk 1 2) t, quadR (Pt.mk 0 0) (Pt.mk 2 1) (Pt.mk 1 2) t] :=
+  ⟨2 / 3, by simp only [xmonoQuadK]; norm_num⟩
+
+/-! ## 6. the cubic replacement of arcs has a fixed relative error -/
+
+/-- `ellipseToCubicBeziers` on a 90° piece of the unit circle (control length `kappaK 1 √7`, the value
+of path_util.go:293 for sin 90° = 1, tan 45° = 1): the midpoint of the cubic lies between 1.9e-3 and
+2.0e-3 inside the circle. Hence ReplaceArcs has the fixed relative error the oracle allows (2.0e-3·rx),
+and Flatten of a non-circular arc (which goes through these cubics) cannot get closer than 1.9e-3·r to
+a quarter arc however small the tolerance — the recorded finding C03-elliptic-arc-error-floor. -/
+theorem arc_to_cube_quarter_midpoint_error (a : K) (ha : 0 ≤ a) (ha2 : a * a = 4 + 3 * (1 * 1)) :
+    let k := kappaK 1 a
+    let m := cubicBezierPos (Pt.mk 1 0) (Pt.mk 1 k) (Pt.mk k 1) (Pt.mk 0 1) (1 / 2)
+    (1 - 20 / 10000) ^ 2 ≤ m.x * m.x + m.y * m.y ∧ m.x * m.x + m.y * m.y ≤ (1 - 19 / 10000) ^ 2 :=
+  quarter_midpoint_radius a ha ha2
+
+/-- non-vacuity: a nonnegative square root of 7 exists (reals) -/
+example : ∃ a : ℝ, 0 ≤ a ∧ a * a = 4 + 3 * (1 * 1) :=
+  ⟨Real.sqrt 7, Real.sqrt_nonneg 7, by rw [Real.mul_self_sqrt (by norm_num)]; norm_num⟩
 
 end C03
